@@ -22,6 +22,7 @@ def run(chk, program, tier):
     chk.rule('GEN-TAB', 'lookup tables == database enumerations, entry by entry')
     chk.rule('GEN-RAISE', 'raise/assert inventory of generated decoders')
     chk.rule('GEN-OFFSET', 'database Offset applied between scaling and range check')
+    chk.rule('DISP', 'the dispatcher of a multi-definition PGN selects the definition the database prescribes (C08)')
     chk.rule('HELP-DEC', 'residual of decode_number / decode_int at database constants == database rows')
     chk.rule('NA-RANGE', 'the not-available code lies outside the database range')
     chk.rule('HELP-STR', 'string helpers: skip = 8 x length byte; fixed strings take exactly their bits')
@@ -30,6 +31,7 @@ def run(chk, program, tier):
     R.gen_tab(chk, program)
     R.gen_raise(chk, program)
     R.gen_offset(chk, program, off)
+    R.disp(chk, program)
     from .. import rules_help
     rules_help.help_dec(chk, program)
     rules_help.help_siblings(chk, program)
